@@ -30,3 +30,12 @@ Definition default_obs (d : db) (cn pn : string) : res (option (option (string *
   | Some c => r <- find_default_owner d c pn ;;
               Ok (Some (match r with Some (o, v) => Some (o, vtype v) | None => None end))
   end.
+
+(* ReflectionDatabase::superclasses / superclasses_iter observed as the list of class names, the class itself first;
+   None = the class is not in the database *)
+Definition chain_obs (d : db) (cn : string) : option (list string) :=
+  match get_class d cn with
+  | None => None
+  | Some c => Some (List.map cd_name (superclasses (length (db_classes d)) d c))
+  end.
+
